@@ -29,8 +29,8 @@ RULE = (
     "expected product has a non-zero entry; cells are distinct by construction (different key tuple)"
 )
 BOUNDS = {
-    "quick": "(a),(b): m,k,n<=2 all positions, 16 unit pairs (64 signed for 1x1); (c),(d),(e): m,k,n<=3, six pattern classes, 1 fill row; monomial unitaries n<=2 all, n=3 transversal",
-    "thorough": "(a): m,k,n<=4; (b): <=2; (c),(d),(e): m,k,n<=4, 3 fill rows; monomial unitaries n<=3 all",
+    "quick": "(a),(b): m,k,n<=2 all positions, 16 unit pairs (64 signed for 1x1); (c),(d),(e): m,k,n<=3, six pattern classes, 1 fill row; monomial unitaries n<=2 all, n=3 transversal; large RESULTS 65536x1 . 1xn and transpose for n=2..40 + three squarish results; all component-support combinations on (1x1)(1x2), (2x1)(1x1), five supports on (1x1)(1x3), (1x2)(2x1), (2x1)(1x2)",
+    "thorough": "(a): m,k,n<=4; (b): <=2; (c),(d),(e): m,k,n<=4, 3 fill rows; monomial unitaries n<=3 all; large results n=2..130 + nine squarish results",
 }
 WALL_BUDGET = {"quick": 300, "thorough": 2400}
 ASSUMPTIONS = [
